@@ -5,6 +5,7 @@ CONSTANTS MaxIdx = 5
           MaxReaders = 2
           MaxRF = 1
           Depth = 5
+          ReaderAtStart = FALSE
           DupMode = "any"
           QMode = "all"
 CONSTRAINT Bounded
